@@ -209,6 +209,8 @@ type DStep struct {
 	Bytes   int      `json:"bytes,omitempty"`
 	RemLen  int      `json:"remlen,omitempty"` // pub: the payload size is chosen so that the packet's remaining length is exactly this
 	Dup     bool     `json:"dup,omitempty"` // pub QoS 2: the first copy already carries DUP=1
+	Retain  bool     `json:"retain,omitempty"` // pub: the delivered PUBLISH carries the retain flag
+	Empty   bool     `json:"empty,omitempty"`  // pub: zero-length payload
 	Clean   bool     `json:"clean,omitempty"` // reconnect: CleanSession of the second CONNECT
 }
 
@@ -287,6 +289,7 @@ func runDispatch(c DCase) (res dresult) {
 	type open2 struct {
 		topic   string
 		payload []byte
+		retain  bool
 	}
 	q2 := map[uint16]*open2{}
 	var q2order []uint16 // open exchanges in PUBLISH (= PUBREC) order
@@ -422,9 +425,19 @@ func runDispatch(c DCase) (res dresult) {
 				}
 			}
 			pl := dpayload(msgno, size)
+			if st.Empty {
+				pl = []byte{}
+				cls["delivered-message-with-empty-payload"] = true
+			}
+			if st.Retain {
+				cls["delivered-message-with-retain-flag"] = true
+				if st.Empty {
+					cls["delivered-message-with-retain-flag-and-empty-payload"] = true
+				}
+			}
 			switch st.QoS {
 			case 0:
-				s.srv.Send(&codec.Packet{Type: codec.PUBLISH, Topic: []byte(st.Topic), Payload: pl})
+				s.srv.Send(&codec.Packet{Type: codec.PUBLISH, Retain: st.Retain, Topic: []byte(st.Topic), Payload: pl})
 				if f := flush(); f != "" {
 					return dresult{Fail: where + ": " + f}
 				}
@@ -432,7 +445,7 @@ func runDispatch(c DCase) (res dresult) {
 					return dresult{Fail: f}
 				}
 			case 1:
-				s.srv.Send(&codec.Packet{Type: codec.PUBLISH, QoS: 1, PacketID: st.ID, Topic: []byte(st.Topic), Payload: pl})
+				s.srv.Send(&codec.Packet{Type: codec.PUBLISH, QoS: 1, Retain: st.Retain, PacketID: st.ID, Topic: []byte(st.Topic), Payload: pl})
 				if f := flush(); f != "" {
 					return dresult{Fail: where + ": " + f}
 				}
@@ -450,13 +463,13 @@ func runDispatch(c DCase) (res dresult) {
 					cls["first-copy-carries-dup"] = true
 				}
 				if o == nil {
-					o = &open2{st.Topic, pl}
+					o = &open2{st.Topic, pl, st.Retain}
 					q2[st.ID] = o
 					q2order = append(q2order, st.ID)
 				} else {
 					cls["dup-publish-before-pubrel"] = true
 				}
-				s.srv.Send(&codec.Packet{Type: codec.PUBLISH, QoS: 2, Dup: dup, PacketID: st.ID, Topic: []byte(o.topic), Payload: o.payload})
+				s.srv.Send(&codec.Packet{Type: codec.PUBLISH, QoS: 2, Dup: dup, Retain: o.retain, PacketID: st.ID, Topic: []byte(o.topic), Payload: o.payload})
 				if f := flush(); f != "" {
 					return dresult{Fail: where + ": " + f}
 				}
@@ -626,7 +639,8 @@ func genDispatch(t *rapid.T, q2heavy bool) DCase {
 			if q2heavy && rapid.IntRange(0, 2).Draw(t, "force-q2") == 0 {
 				q = 2
 			}
-			c.Steps = append(c.Steps, DStep{K: "pub", Topic: rapid.SampledFrom(dTopics).Draw(t, "t"), QoS: q, ID: rapid.SampledFrom(ids).Draw(t, "id"), Size: rapid.SampledFrom([]int{6, 20, 200, 3000}).Draw(t, "size"), Dup: q == 2 && rapid.IntRange(0, 4).Draw(t, "firstdup") == 0})
+			c.Steps = append(c.Steps, DStep{K: "pub", Topic: rapid.SampledFrom(dTopics).Draw(t, "t"), QoS: q, ID: rapid.SampledFrom(ids).Draw(t, "id"), Size: rapid.SampledFrom([]int{6, 20, 200, 3000}).Draw(t, "size"), Dup: q == 2 && rapid.IntRange(0, 4).Draw(t, "firstdup") == 0,
+				Retain: rapid.IntRange(0, 3).Draw(t, "retain") == 0, Empty: rapid.IntRange(0, 5).Draw(t, "empty") == 0})
 		case k < 18:
 			c.Steps = append(c.Steps, DStep{K: "pubrel", ID: rapid.SampledFrom(ids).Draw(t, "rid")})
 		case k == 18 && rapid.IntRange(0, 2).Draw(t, "reconnect") == 0:
